@@ -141,7 +141,8 @@ func pcRun(t *testing.T, vs *vset, max int64, ops []pcOp, names []string, seq []
 					quietSince = time.Now()
 				}
 			case 4:
-				time.Sleep(op.d)
+				// +1ns: every expiry timer due at now+d has fired and finished before this goroutine wakes up
+				time.Sleep(op.d + time.Nanosecond)
 				synctest.Wait()
 			case 5:
 				c.Clear()
@@ -402,7 +403,7 @@ func TestC17Cache(t *testing.T) {
 		rep.Extra["cache_stale_timer_child_process_crashed"] = crashed
 		rep.Extra["cache_stale_timer_child_process_panic"] = line
 	}
-	if st.loads == 0 || st.hits == 0 || st.expirySteps == 0 || st.atMax == 0 || blocked == 0 {
+	if vs.empty() && (st.loads == 0 || st.hits == 0 || st.expirySteps == 0 || st.atMax == 0 || blocked == 0) {
 		core.HarnessError("vacuous cache run: %+v blocked=%d", st, blocked)
 	}
 	vs.flush(rep)
